@@ -254,8 +254,11 @@ def check_case(case, tol=2e-8):
     fH = lambda n: Hd.get(n, np.zeros((dim, dim), dtype=complex))
     if not np.all(np.isfinite(np.array([np.abs(v).max() for v in S.values()]))):
         return [dict(what="non-finite element returned", input=case, prop="finite")]
-    scale = max(1.0, max(np.abs(v).max() for v in S.values()))
+    scale_all = max(1.0, max(np.abs(v).max() for v in S.values()))
     for n in orders_upto(k, N):
+        # tolerance relative to the size of the terms that can enter order n (orders componentwise <= n): a mutation that
+        # blows up high orders must not loosen the test of the low orders
+        scale = max(1.0, max(np.abs(v).max() for (nm, m), v in S.items() if all(x <= y for x, y in zip(m, n))))
         HU = lambda m: cauchy2(fH, fU, m)
         tot = cauchy2(fUi, HU, n)
         d1 = np.abs((tot - S["Ht", n])[K]).max() if K.any() else 0
